@@ -16,11 +16,8 @@ import (
 )
 
 func backgroundCompaction(db *DB) {
-	defer func() {
-		db.doneCompactionChannel <- true
-	}()
-
 	if !db.enableCompactions {
+		db.doneCompactionChannel <- true
 		return
 	}
 
@@ -50,8 +47,11 @@ func backgroundCompaction(db *DB) {
 	}(db)
 
 	if err != nil {
+		// no done signal on this way out, see flushMemstoreContinuously
 		log.Panicf("error while compacting, error was %v", err)
 	}
+
+	db.doneCompactionChannel <- true
 }
 
 func executeCompaction(db *DB) (compactionMetadata *proto.CompactionMetadata, err error) {
